@@ -9,6 +9,8 @@ package main
 //   lockFacts    every mention of the time-zone cache map with the kind of lock region it sits in
 //   poolFacts    every sync.Pool Get with whether the same function Puts the object back (directly or deferred)
 //   varWrites    assignments to package-level variables outside init functions and var declarations
+//   logGuards    every statement other than a logger call chain that sits under an `if` whose condition asks for the
+//                log level (logLevel*() or a variable assigned from it), and every such `if` with an else branch
 //
 // Conservative and syntactic: anything the extractor does not understand is reported as its own fact, so the
 // expectation theorems on the Lean side fail rather than pass silently.
@@ -36,7 +38,7 @@ func exprStr(fset *token.FileSet, e ast.Node) string {
 }
 
 func genFacts(repo string) (string, error) {
-	var prints, allocs, locks, pools, writes []string
+	var prints, allocs, locks, pools, writes, guards []string
 	for _, rel := range factPkgs {
 		dir := filepath.Join(repo, rel)
 		ents, err := os.ReadDir(dir)
@@ -85,6 +87,112 @@ func genFacts(repo string) (string, error) {
 					fn = exprStr(fset, fd.Recv.List[0].Type) + "." + fn
 				}
 				where := file + ":" + fn
+				// log-level guards: what else do they guard?
+				lvlVars := map[string]bool{}
+				mentionsLevel := func(e ast.Expr) bool {
+					found := false
+					ast.Inspect(e, func(nd ast.Node) bool {
+						switch x := nd.(type) {
+						case *ast.CallExpr:
+							cs := exprStr(fset, x.Fun)
+							if i := strings.LastIndex(cs, "."); i >= 0 {
+								cs = cs[i+1:]
+							}
+							if strings.HasPrefix(strings.ToLower(cs), "loglevel") || cs == "GetLevel" || cs == "Enabled" {
+								found = true
+							}
+						case *ast.Ident:
+							if lvlVars[x.Name] {
+								found = true
+							}
+						}
+						return true
+					})
+					return found
+				}
+				isLogStmt := func(st ast.Stmt) bool {
+					es, ok := st.(*ast.ExprStmt)
+					if !ok {
+						return false
+					}
+					// a call chain that ends in Send / Msg / Msgf and is rooted in one of the logger helpers (a function or
+					// method whose name starts with "log", or the package logger), or a direct call of such a helper
+					call, ok := es.X.(*ast.CallExpr)
+					if !ok {
+						return false
+					}
+					lastName := func(e ast.Expr) string {
+						switch y := e.(type) {
+						case *ast.Ident:
+							return y.Name
+						case *ast.SelectorExpr:
+							return y.Sel.Name
+						}
+						return ""
+					}
+					outer := lastName(call.Fun)
+					if strings.HasPrefix(outer, "log") {
+						return true
+					}
+					if !(outer == "Send" || outer == "Msg" || outer == "Msgf") {
+						return false
+					}
+					rooted := false
+					ast.Inspect(call, func(nd ast.Node) bool {
+						if c2, ok := nd.(*ast.CallExpr); ok && strings.HasPrefix(lastName(c2.Fun), "log") {
+							rooted = true
+						}
+						if id, ok := nd.(*ast.Ident); ok && (id.Name == "logger" || id.Name == "Logger") {
+							rooted = true
+						}
+						return true
+					})
+					return rooted
+				}
+				definesGuard := strings.HasPrefix(strings.ToLower(fd.Name.Name), "loglevel") || (f.Name.Name == "jpeg" && fd.Name.Name == "logInfo")
+				ast.Inspect(fd.Body, func(nd ast.Node) bool {
+					switch x := nd.(type) {
+					case *ast.AssignStmt:
+						if len(x.Lhs) == 1 && len(x.Rhs) == 1 && mentionsLevel(x.Rhs[0]) {
+							if id, ok := x.Lhs[0].(*ast.Ident); ok {
+								lvlVars[id.Name] = true
+							}
+						}
+					case *ast.IfStmt:
+						if mentionsLevel(x.Cond) {
+							for _, st := range x.Body.List {
+								if !isLogStmt(st) {
+									txt := exprStr(fset, st)
+									if len(txt) > 90 {
+										txt = txt[:90] + "..."
+									}
+									guards = append(guards, fmt.Sprintf("%s:if %s:%T:%s", where, exprStr(fset, x.Cond), st, txt))
+								}
+							}
+							if x.Else != nil {
+								guards = append(guards, fmt.Sprintf("%s:if %s:else", where, exprStr(fset, x.Cond)))
+							}
+						}
+					case *ast.SwitchStmt, *ast.ForStmt, *ast.ReturnStmt:
+						var e ast.Expr
+						switch y := nd.(type) {
+						case *ast.SwitchStmt:
+							e = y.Tag
+						case *ast.ForStmt:
+							e = y.Cond
+						case *ast.ReturnStmt:
+							for _, r := range y.Results {
+								if mentionsLevel(r) && !definesGuard {
+									guards = append(guards, fmt.Sprintf("%s:return %s", where, exprStr(fset, r)))
+								}
+							}
+						}
+						if e != nil && mentionsLevel(e) {
+							guards = append(guards, fmt.Sprintf("%s:%T on level", where, nd))
+						}
+					}
+					return true
+				})
 				// lock regions, tracked syntactically in statement order
 				region := "none"
 				hasPut := map[string]bool{}
@@ -181,6 +289,6 @@ func genFacts(repo string) (string, error) {
 		return sb.String()
 	}
 	out := "/- GENERATED by harness/cmd/goast2lean (facts) from /repo. Do not edit. -/\nnamespace Imeta.Gen.Facts\n\n"
-	out += emit("printSites", prints) + emit("allocSites", allocs) + emit("lockFacts", locks) + emit("poolFacts", pools) + emit("varWrites", writes)
+	out += emit("printSites", prints) + emit("allocSites", allocs) + emit("lockFacts", locks) + emit("poolFacts", pools) + emit("varWrites", writes) + emit("logGuards", guards)
 	return out + "end Imeta.Gen.Facts\n", nil
 }
